@@ -124,6 +124,7 @@ let rpd toks =
       let b12 = b12 <> "0" in
       (* two recipient contexts: a leading '2' addresses the second one *)
       let s = ref rp_init and s2 = ref rp_init in
+      let own = ref 0 in      (* the server's sender sequence number: one for both contexts *)
       let st x = Printf.sprintf "%s,%s,%s" (hex_of_z x.rp_last) (hex_of_z x.rp_win) (b01 x.rp_initial) in
       let outs = List.map (fun tok ->
           let second = tok.[0] = '2' in
@@ -132,7 +133,14 @@ let rpd toks =
           let r, s1 = rp_recv v w b12 !cur (rp_msg_of tok') in
           cur := s1;
           let letter = if tok'.[0] = 'A' then (if r = RpAccept then "A" else "*") else verdict_letter r in
-          Printf.sprintf "%s,%s/%s" letter (st !s) (st !s2)) msgs in
+          (* which nonce protects the reply (Replay.rp_reply_own_piv, the code's choice) *)
+          let tag =
+            if tok'.[0] = 'A' then ""
+            else match rp_reply_own_piv true r with
+              | Some true -> let t = Printf.sprintf "~o%x" !own in incr own; t
+              | Some false -> "~r"
+              | None -> "" in
+          Printf.sprintf "%s,%s/%s%s" letter (st !s) (st !s2) tag) msgs in
       if outs = [] then "-" else String.concat " " outs
   | _ -> failwith "rpd args"
 
@@ -161,6 +169,7 @@ let rpx toks =
       let w = window_of wcfg in
       let b12 = b12 <> "0" in
       let s = ref rp_init in
+      let own = ref 0 in
       let outs = List.map (fun tok ->
           let m = rp_msg_of tok in
           let r, s1 = rp_recv v w b12 !s m in
@@ -169,8 +178,18 @@ let rpx toks =
             match m.rp_m_kind with
             | RpRequest -> verdict_letter r
             | RpResponse -> (match r with RpAccept | RpAcceptUnchecked -> "A" | _ -> "X") in
-          Printf.sprintf "%s,%s,%s,%s" letter (hex_of_z s1.rp_last) (hex_of_z s1.rp_win)
-            (b01 s1.rp_initial)) ops in
+          let tag =
+            if tok.[0] = 'q' then begin
+              (* the endpoint's own request: protected under the next Partial IV of the same
+                 sender sequence number the challenges use *)
+              let t = Printf.sprintf "~o%x" !own in incr own; t
+            end else
+            match m.rp_m_kind, rp_reply_own_piv true r with
+            | RpRequest, Some true -> let t = Printf.sprintf "~o%x" !own in incr own; t
+            | RpRequest, Some false -> "~r"
+            | _, _ -> "" in
+          Printf.sprintf "%s,%s,%s,%s%s" letter (hex_of_z s1.rp_last) (hex_of_z s1.rp_win)
+            (b01 s1.rp_initial) tag) ops in
       if outs = [] then "-" else String.concat " " outs
   | _ -> failwith "rpx args"
 
